@@ -177,6 +177,9 @@ func goValueOf(t types.Type, n *inputTree, qual types.Qualifier) string {
 		}
 		return zeroLit(t, qual)
 	case *types.Pointer:
+		if k, ok := n.kids["nil"]; ok && k.val == "true" {
+			return "nil"
+		}
 		if nm, ok := u.Elem().(*types.Named); ok {
 			if st, ok := nm.Underlying().(*types.Struct); ok {
 				var fs []string
